@@ -607,8 +607,8 @@ func (g *gen) ctorCase() {
 	g.runCtor(args, r.Intn(2) == 0, "constructor")
 }
 
-// ---------- pinned witnesses (run first on every run): findings 1-9 are repaired in /repo and are
-// regression cases that expect the ES5 result; 11 and 12 are open ----------
+// ---------- pinned witnesses (run first on every run): all eleven findings are repaired in /repo;
+// these are regression cases that expect the ES5 result ----------
 
 func nums(xs ...float64) []*V {
 	a := make([]*V, len(xs))
@@ -646,9 +646,9 @@ func (g *gen) pinned() {
 	g.runHist(arr(nums(1, 2, 3)), []Op{{kind: 'p', k: kName("length"), d: Desc{w: bp(false)}}, {kind: 'p', k: kName("length"), d: Desc{v: vp(vNum(3))}}}, "pinned")
 	// 9 (fixed 27b5748) substr: saturated length
 	g.runStr(2, "abc", []V{vNum(1), vNum(math.Inf(1))}, "pinned")
-	// 11 (open) toString forwards its arguments to join
+	// 11 (fixed 4b9c107) toString calls join without arguments
 	g.runHist(arr(nums(1, 2)), []Op{{kind: 'c', m: 18, args: []Arg{av(vStr("-"))}}}, "pinned")
-	// 12 (open) the callback methods read length only after the IsCallable test
+	// 12 (fixed fcc8076) the callback methods read length before the IsCallable test
 	g.runHist(Recv{elems: []*V{vp(vStr("a")), vp(vStr("b"))}, length: vp(vNum(2)), lenGet: true},
 		[]Op{{kind: 'c', m: 12, args: []Arg{av(vNum(1))}}}, "pinned")
 }
